@@ -607,15 +607,26 @@ impl SplitPool {
         let (tx, rx) = oneshot::channel();
         let max_timeout = Duration::from_secs(5 * 60);
 
+        #[cfg(feature = "verif-hooks")]
+        let verif_req = crate::verif::next_writer_request();
+        #[cfg(feature = "verif-hooks")]
+        crate::verif::aevent("wq.call", || format!("{verif_req} {queue}")).await;
+
         timeout_fut("tx to oneshot channel", max_timeout, chan.send(tx))
             .await?
             .map_err(|_| PoolError::QueueClosed)?;
+
+        #[cfg(feature = "verif-hooks")]
+        crate::verif::aevent("wq.enqueued", || format!("{verif_req} {queue}")).await;
 
         let start = Instant::now();
 
         let _drop_guard = timeout_fut("rx from oneshot channel", max_timeout, rx)
             .await?
             .map_err(|_| PoolError::CallbackClosed)?;
+
+        #[cfg(feature = "verif-hooks")]
+        crate::verif::aevent("wq.granted", || format!("{verif_req} {queue}")).await;
 
         histogram!("corro.sqlite.pool.queue.seconds", "queue" => queue)
             .record(start.elapsed().as_secs_f64());
@@ -633,6 +644,8 @@ impl SplitPool {
             .record(start.elapsed().as_secs_f64());
 
         Ok(WriteConn {
+            #[cfg(feature = "verif-hooks")]
+            _verif: crate::verif::WriterGuard::new(verif_req, queue),
             conn,
             _drop_guard,
             _permit,
@@ -686,6 +699,10 @@ where
 }
 
 pub struct WriteConn {
+    // declared first so that it is dropped first: "released" is logged before the
+    // connection, the queue guard and the permit are actually given back
+    #[cfg(feature = "verif-hooks")]
+    _verif: crate::verif::WriterGuard,
     conn: sqlite_pool::Connection<CrConn>,
     _drop_guard: DropGuard,
     _permit: OwnedSemaphorePermit,
@@ -857,6 +874,8 @@ pub struct LockRegistry {
 
 impl LockRegistry {
     fn remove(&self, id: &LockId) {
+        #[cfg(feature = "verif-hooks")]
+        crate::verif::event("lock.released", || format!("{id}"));
         self.map.write().swap_remove(id);
     }
 
@@ -1026,12 +1045,23 @@ impl LockRegistry {
     }
 
     fn set_lock_state(&self, id: &LockId, state: LockState) {
+        #[cfg(feature = "verif-hooks")]
+        crate::verif::event("lock.state", || format!("{id} {state:?}"));
         if let Some(meta) = self.map.write().get_mut(id) {
             meta.state = state
         }
     }
 
     fn insert_lock(&self, id: LockId, meta: LockMeta) {
+        #[cfg(feature = "verif-hooks")]
+        crate::verif::event("lock.acquiring", || {
+            format!(
+                "{id} {:?} {} {}",
+                meta.kind,
+                meta.label.replace(' ', "_"),
+                meta.extra.as_deref().unwrap_or("-")
+            )
+        });
         self.map.write().insert(id, meta);
     }
 
